@@ -23,12 +23,17 @@ LEVEL = "proof"
 RULE = ("in-process cases = op sequences (10-40 ops) over suppressions drawn from ids x files (local / wildcard / global) x lines x symbol x "
         "hash x inline types, messages biased to near misses of the suppressions present; one case per op, distinct by the whole prefix; "
         "non-trivial = the op changes a flag, answers from a non-empty list, or reports; CLI cases = project x suppression set x executor")
-EXPLANATION = ("Lean theorems: after any op sequence the checked/matched flags equal the history facts they stand for (flags_exact), the "
-               "reported set is exactly the specification (unmatched_exact), a matched suppression is never reported, and the parent's "
-               "merge of worker states is order independent and equals the sequential run on the transferable fields (merge_commutes). "
+EXPLANATION = ("Lean theorems: reported <=> history (reported_iff_history: no call matched it, and by scope a call or token line checked it), "
+               "composed from flags = history (flags_exact) and report = filter conditions (unmatched_exact); every token position is marked "
+               "(mark_complete); a matched suppression is never reported; the message sits at the suppression's own location; executors: the "
+               "parent's merge is independent of the arrival order (merge_commutes), folds an initial entry's worker copies to its sequential flags "
+               "(merge_equals_sequential), and a worker's logger leaves the flags of the single call (worker_reportErr_equals_single_call); "
+               "thread propagation, entries added inside workers and report(parallel) = report(sequential) are correspondence/CLI only. "
                "Tie: real SuppressionList / reportUnmatchedSuppressions / handleRead in process, state compared after every op; CLI with "
                "three executors. Matching itself (C23) is a parameter.")
-THEOREMS = ["Cppcheck.Unmatched.flags_exact", "Cppcheck.Unmatched.unmatched_exact", "Cppcheck.Unmatched.never_for_matched",
+THEOREMS = ["Cppcheck.Unmatched.reported_iff_history", "Cppcheck.Unmatched.flags_exact", "Cppcheck.Unmatched.unmatched_exact",
+            "Cppcheck.Unmatched.never_for_matched", "Cppcheck.Unmatched.mark_complete", "Cppcheck.Unmatched.worker_reportErr_equals_single_call",
+            "Cppcheck.Unmatched.message_location", "Cppcheck.Unmatched.reported_has_origin",
             "Cppcheck.Unmatched.merge_commutes", "Cppcheck.Unmatched.merge_equals_sequential",
             "Cppcheck.Unmatched.wire_keeps_key",
             "Cppcheck.Unmatched.line_suppression_needs_inline_counterexample", "Cppcheck.Unmatched.hash_lost_on_wire_counterexample",
@@ -111,6 +116,35 @@ def gen_msg(rng, present):
     return dict(id=rng.choice(MSG_IDS), file=rng.choice(MSG_FILES), line=rng.choice([-1, 0, 1, 2, 3, 10]), sym=rng.choice(["", "x"]), hash=rng.choice([0, 0, 5]))
 
 
+def gen_token_stream(rng, present):
+    """(file, line) positions of a token stream: runs of lines inside a file, file changes (#include) both at changed and at
+    UNCHANGED line numbers, repeated positions (several tokens per line); biased to the scopes of the suppressions present"""
+    files = ["a.c", "b.c", "h.h", "src/a.c"]
+    locs = []
+    n = rng.choice([1, 2, 3, 5, 8])
+    f = rng.choice(files)
+    l = rng.choice([1, 2, 3, 10])
+    for _ in range(n):
+        k = rng.random()
+        if k < 0.3:
+            f = rng.choice([x for x in files if x != f])          # the stream enters another file, same line number
+        elif k < 0.45:
+            f = rng.choice(files); l = rng.choice([1, 2, 3, 4, 10, 11])
+        elif k < 0.6 and present:
+            s = rng.choice(present)
+            if s["file"] in files:
+                # arrive at the suppression's own position from another file on the same line
+                l = s["line"] if s["line"] > 0 else l
+                locs.append((rng.choice([x for x in files if x != s["file"]]), l))
+                f = s["file"]
+        elif k < 0.8:
+            l += 1
+        locs.append((f, l))
+        if rng.random() < 0.2:
+            locs.append((f, l))
+    return locs
+
+
 def gen_sequence(rng, kind, length):
     """kind: 'seq' (sequential machine: add / sup / mark, then getters and report), 'mix' (everything)"""
     ops = [("new",)]
@@ -126,21 +160,22 @@ def gen_sequence(rng, kind, length):
                 m = dict(id="", file=rng.choice(["a.c", "b.c", "src/a.c"]), line=-1, sym="", hash=0)      # the dummy call of CppCheck::check
             ops.append(("sup", rng.random() < 0.75, m))
         elif r < 0.72:
-            n = rng.choice([1, 2, 3, 5])
-            ops.append(("mark", [(rng.choice(["a.c", "b.c", "h.h", "src/a.c"]), rng.choice([1, 2, 3, 4, 10, 11])) for _ in range(n)]))
-        elif kind == "mix" and r < 0.77:
+            ops.append(("mark", gen_token_stream(rng, present)))
+        elif kind == "mix" and r < 0.75:
             ops.append(("supx", rng.random() < 0.75, gen_msg(rng, present)))
+        elif kind == "mix" and r < 0.79:
+            ops.append(("werr", gen_msg(rng, present)))
         elif kind == "mix" and r < 0.84:
             s = dict(rng.choice(present)) if rng.random() < 0.7 else gen_suppr(rng, True)
             s["chk"] = rng.random() < 0.7; s["mat"] = s["chk"] and rng.random() < 0.4
             if s["id"] not in IDS:
                 s["id"] = "nullPointer"       # a worker's list holds only entries addSuppression accepted; `;` would also break the pipe format
             ops.append((rng.choice(["recv", "recv", "upd"]), s))
-        elif kind == "mix" and r < 0.87:
+        elif kind == "mix" and r < 0.88:
             ops.append(("thread",))
-        elif kind == "mix" and r < 0.9:
+        elif kind == "mix" and r < 0.92:
             ops.append(("wire",))
-        elif r < 0.94:
+        elif r < 0.95:
             ops.append((rng.choice(["ul", "ug", "ui"]), rng.choice(["a.c", "b.c", "src/a.c"])))
         else:
             ops.append(gen_report(rng))
@@ -168,6 +203,9 @@ def harness_line(op):
     if k in ("sup", "supx"):
         m = op[2]
         return "%s %d %s %s %d %s %d" % (k, 1 if op[1] else 0, core.hx(m["id"]), core.hx(m["file"]), m["line"], core.hx(m["sym"]), m["hash"])
+    if k == "werr":
+        m = op[1]
+        return "werr %d %s %s %d %s %d" % (1 if VARIANT["showGlobal"] else 0, core.hx(m["id"]), core.hx(m["file"]), m["line"], core.hx(m["sym"]), m["hash"])
     if k == "mark":
         return "mark %d %s" % (len(op[1]), " ".join("%s %d" % (core.hx(f), l) for f, l in op[1]))
     if k == "ul":
@@ -191,6 +229,8 @@ def driver_line(op, params):
         return "upd %s" % suppr_tok(op[1])
     if k in ("sup", "supx"):
         return "%s %d %s %s" % (k, 1 if op[1] else 0, core.hx(op[2]["id"]), params.get("vs", "-"))
+    if k == "werr":
+        return "werr %d %s %s %s" % (1 if VARIANT["showGlobal"] else 0, core.hx(op[1]["id"]), params.get("vs", "-"), params.get("vs2", "-"))
     if k == "mark":
         return harness_line(op)
     if k == "ul":
@@ -437,6 +477,48 @@ def run_cli(ctx, res, rng, thorough, viol):
     return ncases
 
 
+def run_cli_boundary(ctx, res, rng, thorough, viol):
+    """#include layouts where the token stream changes file at an UNCHANGED line number, with a suppression (command line
+    id:file:line / inline) exactly on the first line of the new file that matches nothing: the property demands one
+    unmatchedSuppression there, with every executor"""
+    runner = cli.Runner(ctx, ctx.cppcheck)
+    n = 6 if thorough else 2
+    for k in range(n):
+        N = rng.choice([2, 3, 4, 5])
+        pdir = os.path.join(ctx.tmp, "bnd%d" % k)
+        os.makedirs(pdir, exist_ok=True)
+        hdr = "".join("// h%d\n" % i for i in range(N - 1)) + "int shared_%d(void);\n" % k              # last token on line N
+        files = {"bh.h": hdr}
+        # (1) command line suppression on the includer's first code line after the #include, which is line N as well
+        files["m.c"] = "".join("int f%d_%d;\n" % (k, i) for i in range(N - 2)) + '#include "bh.h"\n' + "int tot%d(int n){ return n + 1; }\n" % k
+        # (2) the same with an inline suppression (header's last line = N + 1)
+        files["bh2.h"] = "".join("// h%d\n" % i for i in range(N)) + "int shared2_%d(void);\n" % k
+        files["i.c"] = "".join("int g%d_%d;\n" % (k, i) for i in range(N - 2)) + '#include "bh2.h"\n// cppcheck-suppress nullPointer\n' + "int toti%d(int n){ return n + 2; }\n" % k
+        # (3) reverse: the header's first code line (inline suppression above it) has the line number of the includer's last token
+        files["rh.h"] = "".join("// r%d\n" % i for i in range(N - 2)) + "// cppcheck-suppress nullPointer\n" + "int rh_%d(void);\n" % k
+        files["r.c"] = "".join("// c%d\n" % i for i in range(N - 1)) + "int before%d;\n" % k + '#include "rh.h"\n' + "int after%d;\n" % k
+        # control: no include in front of the suppressed line
+        files["p.c"] = "".join("int p%d_%d;\n" % (k, i) for i in range(N - 1)) + "int totp%d(int n){ return n + 3; }\n" % k
+        for name, text in files.items():
+            open(os.path.join(pdir, name), "w").write(text)
+        exp = sorted(["unmatchedSuppression|m.c|%d|0|information|Unmatched suppression: nullPointer" % N,
+                      "unmatchedSuppression|i.c|%d|1|information|Unmatched suppression: nullPointer" % (N + 1),
+                      "unmatchedSuppression|rh.h|%d|1|information|Unmatched suppression: nullPointer" % N,
+                      "unmatchedSuppression|p.c|%d|0|information|Unmatched suppression: nullPointer" % N])
+        for ex in (["single"], ["thread", "-j2", "--executor=thread"], ["process", "-j2", "--executor=process"]):
+            args = ["-q", cli.TEMPLATE, "--template-location=", "--enable=information", "--inline-suppr",
+                    "--suppress=nullPointer:m.c:%d" % N, "--suppress=nullPointer:p.c:%d" % N] + ex[1:] + ["m.c", "i.c", "r.c", "p.c"]
+            rc, out, err = runner.run(pdir, args)
+            um = cli_unmatched(cli.parse_lines(err))
+            res.case("cli-boundary|" + json.dumps(files, sort_keys=True) + ex[0], True,
+                     dict(tie="cli-boundary", args=" ".join(args), unmatched=um) if k == 0 and ex[0] == "single" else None)
+            res.count("cli-boundary:" + ex[0])
+            if um != exp:
+                viol.append(("a suppression on an analysed line that matches nothing is not reported (token stream changes file at line %d): cppcheck %s prints %s, specified %s"
+                             % (N, " ".join(args), um, exp),
+                             dict(kind="cli-witness", name="include-boundary-%s" % ex[0], files=files, args=args[3:], got=um, specified=exp), None))
+
+
 def translate(ctx):
     pass
 
@@ -522,6 +604,26 @@ def extract(root):
                "ThreadData::check (propagation loop, repeated in the harness)")
     guard(t_thread)
 
+    def t_mark():
+        sp = rd("lib/suppressions.cpp")
+        b = T.function_body(sp, "void SuppressionList::markUnmatchedInlineSuppressionsAsChecked(const TokenList &tokenlist)")
+        want = ("{ std::lock_guard<std::mutex> lg(mSuppressionsSync); int currLineNr = -1; int currFileIdx = -1; "
+                "for (const Token *tok = tokenlist.front(); tok; tok = tok->next()) { "
+                "if (currFileIdx != tok->fileIndex() || currLineNr != tok->linenr()) { currLineNr = tok->linenr(); currFileIdx = tok->fileIndex(); "
+                "for (auto &suppression : mSuppressions) { if (suppression.type == SuppressionList::Type::unique) { "
+                "if (!suppression.checked && (suppression.lineNumber == currLineNr) && (suppression.fileName == tokenlist.file(tok))) { suppression.checked = true; } } "
+                "else if (suppression.type == SuppressionList::Type::block) { "
+                "if ((!suppression.checked && (suppression.lineBegin <= currLineNr) && (suppression.lineEnd >= currLineNr) && (suppression.fileName == tokenlist.file(tok)))) { suppression.checked = true; } } "
+                "else if (!suppression.checked && suppression.fileName == tokenlist.file(tok)) { suppression.checked = true; } } } } }")
+        if b != want:
+            raise T.Unrecognised("SuppressionList::markUnmatchedInlineSuppressionsAsChecked is not the loop the model `markStream` copies "
+                                 "(a token is visited iff file index OR line differs from the previous token): " + b[:400])
+        b = T.function_body(sp, "bool SuppressionList::Suppression::isMatch(const SuppressionList::ErrorMessage &errmsg)")
+        if b != ("{ switch (isSuppressed(errmsg)) { case Result::None: return false; case Result::Checked: checked = true; return false; "
+                 "case Result::Matched: checked = true; matched = true; return true; } cppcheck::unreachable(); }"):
+            raise T.Unrecognised("Suppression::isMatch changed: " + b[:300])
+    guard(t_mark)
+
     def t_exec():
         ce = rd("cli/cppcheckexecutor.cpp")
         b = T.function_body(ce, "int CppCheckExecutor::check_internal(const Settings& settings, Suppressions& supprs) const")
@@ -556,6 +658,9 @@ def run_sequences(ctx, res, seqs, name, viol, check_spec=True):
         if not m:
             raise core.CheckBroken("C24 harness line: %r" % o)
         parsed.append((parse_params(m.group(1)), m.group(2), m.group(3)))
+    flagdep = [hl[i] for i, p in enumerate(parsed) if "F" in p[0].get("vs", "") or "F" in p[0].get("vs2", "")]
+    res.oblig("assumption:FlagFree(" + name + ")", not flagdep, "assumption",
+              "" if not flagdep else "Suppression::isSuppressed gave another verdict with the flags toggled: " + flagdep[0])
     dl = [driver_line(op, p[0]) for (kind, op), p in zip(flat, parsed)]
     rc, mout, merr = core.run_lines(drv, [], dl, timeout=900)
     impl = ["%s | %s" % (p[1], p[2]) for p in parsed]
@@ -584,6 +689,9 @@ def run_sequences(ctx, res, seqs, name, viol, check_spec=True):
     res.traces_validated += len(flat) - len(mism)
     res.oblig("correspondence:" + name, not mism, "correspondence",
               "" if not mism else "%d of %d ops differ; first: op=%s (driver op %s) impl=[%s] model=[%s]" % (len(mism), len(flat), hl[mism[0]], dl[mism[0]], impl[mism[0]][:400], mout[mism[0]][:400]))
+    # ---- the model no longer explains the code: look for a concrete input on which the PROPERTY fails, around the disagreeing ops
+    if mism and check_spec and name != "search":
+        search_sequences(ctx, res, seqs, flat, parsed, mism, viol)
     # ---- P_impl (a): history-based specification on the sequential sequences
     if check_spec:
         pos = 0
@@ -601,10 +709,43 @@ def run_sequences(ctx, res, seqs, name, viol, check_spec=True):
     return mism
 
 
+def search_sequences(ctx, res, seqs, flat, parsed, mism, viol):
+    """for every disagreeing op: rebuild the list it ran on from plain `add`s (flags cleared), apply the op, and ask for a report over
+    all files - a sequence of the sequential machine, so the model-free history specification (P_impl a) decides it"""
+    cand = []
+    seen = set()
+    for i in mism[:60]:
+        kind, op = flat[i]
+        if op[0] not in ("mark", "sup"):
+            continue
+        state = parsed[i - 1][2] if i else "-"
+        entries = [] if state == "-" else [parse_tok(t) for t in state.split(" ")]
+        ops = [("new",)]
+        for e in entries:
+            e = dict(e, chk=False, mat=False)
+            ops.append(("add", e))
+        ops.append(op)
+        for inl in (True, False):
+            ops.append(("report", inl, ["a.c", "b.c", "src/a.c", "h.h"], []))
+        key = json.dumps([harness_line(o) for o in ops])
+        if key not in seen:
+            seen.add(key)
+            cand.append(("seq", ops))
+    if cand:
+        res.extra["search_sequences"] = len(cand)
+        run_sequences(ctx, core.Result(ctx, res.level), cand, "search", viol)
+
+
 def run(ctx, res):
     rng = ctx.rng
     thorough = ctx.tier == "thorough"
     core.prove(ctx, res, MODULES, THEOREMS)
+    res.assumptions += [
+        "FlagFree: Suppression::isSuppressed reads no flag (checked on every verdict of every run: asked twice with the flags toggled)",
+        "the verdict of a suppression on a message, PathMatch::match, matchglob and isValidGlobPattern are parameters (the harness reports the real answers; property C23)",
+        "what CppCheck::check does to the list per file (`fileOps`) is tied by statement extraction and the CLI runs, not executed op by op",
+        "executor theorems: arrival order (merge_commutes), flags of an entry of the initial list (merge_equals_sequential), the worker's logger (worker_reportErr_equals_single_call); "
+        "threadPropagate, entries added inside a worker and report(parallel) = report(sequential) are covered by the correspondence / CLI runs only"]
     viol = []
     var, errs = extract(core.REPO)
     exp = expected_variant()
@@ -630,6 +771,7 @@ def run(ctx, res):
         seqs.append((kind, gen_sequence(rng, kind, rng.choice([10, 20, 30, 40]))))
     run_sequences(ctx, res, seqs, "suppression-state-machine", viol)
     run_cli(ctx, res, rng, thorough, viol)
+    run_cli_boundary(ctx, res, rng, thorough, viol)
     # the recorded CLI witnesses of the corpus
     for c in corpus:
         if c.get("cli"):
